@@ -23,7 +23,8 @@ RULE = ("event sequences (8 quick / 14 thorough) over generated two-module progr
         "-> memento switches, creation of modifier clones (partial, ignore_result, with_context_args, force_local) "
         "and of unregistered wrappers, with version queries of ALL functions after every event and of random "
         "subsets in between; non-trivial = distinct (sequence, position) pairs at which the oracle's version map "
-        "changed")
+        "changed"
+        '; re-binding templates include module aliases and late attributes of one name')
 ASSUMPTIONS = ["a clone or an unregistered wrapper is judged only right after its creation (it is a run-time value, "
                "not program text)", "locked clusters are excluded, as the property says",
                "imports and aliases that copy a re-executed definition are re-executed as well, so that the "
